@@ -85,6 +85,7 @@ def check(ctx):
     ctx.rule("R3", "decorator aliases are collected by a forward scan of the value that stops at the first non-decorator", floor=2)
     ctx.rule("R4", "the alias table is accessed only by key in eval_alias/get (no iteration: definition order cannot matter)", floor=3)
     ctx.rule("R6", "the second alias walker (threadability prediction) terminates too: its loop has a budget or a seen-set, and it hands on to the predictor lookup - which can call it again - only a name established not to be an alias", floor=2)
+    ctx.rule("R7", "the token list a return-command alias hands back reaches the caller token for token: the normaliser validates it and unwraps the dict form, every value it returns for the command is the list it was given (or `<dict>.get('cmd')`, or a plain copy) - never a filtered, mapped or re-ordered list (the user's arguments travel inside it: an explicit '' is an argument)", floor=2)
     ctx.rule("R5", "spec-level resolution tests the running-alias stack before resolving; the proxy thread pushes the alias name inside the swap", floor=3)
 
     mod = ctx.repo.module(AL)
@@ -333,6 +334,7 @@ def check(ctx):
     ctx.ob("R3", "xonsh/procs/specs.py:SubprocSpec.add_decorator", "add_decorator appends to the stage's list on every path (order of arrival kept)", ok_app, key="add_decorator|append", where=loc(ad))
 
     _predictor_walker(ctx)
+    _return_command_tokens_kept(ctx)
 
 
 def _module_scope_rebinds(tree, name):
@@ -456,6 +458,32 @@ def _predictor_walker(ctx):
         ok = (not reenters) or (f"{arg} in {table}", False) in facts
         ctx.ob("R6", st, f"`{short(c, 50)}` is reached only when `{arg} in {table}` is known to be false (otherwise the lookup comes back here with a fresh state: unbounded recursion on a cycle)", ok, key="predictor-walker|onward-call-with-alias-name", where=loc(c), detail="facts: " + "; ".join(sorted(("" if p_ else "not ") + t for t, p_ in facts)))
 
+
+
+def _return_command_tokens_kept(ctx):
+    am = ctx.repo.module(AL)
+    fn = am.func("_normalize_return_command_result")
+    st = f"{AL}:_normalize_return_command_result"
+    vp = param_name(fn, 0, skip_self=False)
+    defs = df.all_defs(fn)
+    # the names that can hold the command list: the parameter and whatever is returned in first place
+    holders = {vp}
+    for r in [r for r in walk_local(fn) if isinstance(r, ast.Return) and r.value is not None]:
+        v = r.value.elts[0] if isinstance(r.value, ast.Tuple) and r.value.elts else r.value
+        if isinstance(v, ast.Name):
+            holders.add(v.id)
+    n = 0
+    for nm in sorted(holders):
+        for d in defs.get(nm, []):
+            if d.value is None or d.kind != "assign":
+                continue
+            n += 1
+            v = d.value
+            kept = (isinstance(v, ast.Name) and v.id in holders) or (isinstance(v, ast.Call) and isinstance(v.func, ast.Attribute) and v.func.attr in ("get", "pop", "copy") and unparse(v.func.value) in holders) or (isinstance(v, ast.Call) and call_name(v) == "list" and len(v.args) == 1 and unparse(v.args[0]) in holders) or (isinstance(v, ast.Subscript) and unparse(v.value) in holders and isinstance(v.slice, ast.Constant))
+            ctx.ob("R7", st, f"`{nm} = {short(v, 50)}` hands the returned tokens on as they are", kept, key="normalize|tokens-rewritten", where=loc(d.stmt), detail=None if kept else "a comprehension / filter / map over the token list drops or rewrites what the user passed")
+    if n < 1:
+        raise AnalysisError(f"{st}: no definition of the command list found")
+    ctx.ob("R7", st, f"{n} definition(s) of the command list examined", True, key="normalize|examined")
 
 META = {
     "technique": "static analysis: recursion-variant check via CFG guard facts + def-use of the seen set, sequence-order analysis of list constructions, table-access-shape rule",
